@@ -6,6 +6,13 @@ HERE = os.path.dirname(os.path.dirname(os.path.abspath(__file__)))
 
 # id -> (category, technique, text, note)
 CLAIMED = {
+ "C02": ("other", "CFG + reaching definitions on Image.subregion (bounded-selection rule), provenance checks, package-wide time-axis idiom lint (ast)",
+         "Decides, for every input and nesting depth at once, the conventions each extraction step relies on: every definition of the "
+         "voxel selection that reaches the data subscript and the origin/extent computation is bounded to the image; one selection "
+         "feeds data, origin and extent through the coordinate system and the axis table; scalar/vector time-axis subscripts agree "
+         "package-wide and the same index addresses data, date and time; append/stack keep order. "
+         "Not decided: equality of the extracted block with the parent's data as numbers, float coordinates under nesting.",
+         "Trusted: python ast parser; sa/cfg.py reaching definitions (path-insensitive; a None selection is treated as infeasible). Structural necessary conditions only."),
  "C01": ("other", "table extraction + role-normalised affine normal forms of the forward/inverse maps + truncating-cast lint + symbolic folding of the typed conversion chains (ast)",
          "Decides the structural necessary conditions of the conversion property for every dimension and input at once: the axis "
          "table is a signed bijection; coordinate() is origin + s*voxel*voxel_size per axis, voxel() is the floor of an expression "
